@@ -5,6 +5,7 @@
 #include <pika/async_mpi/mpi_polling.hpp>
 #include <pika/async_mpi/transform_mpi.hpp>
 #include <pika/mpi_base/mpi.hpp>
+#include <pika/runtime/thread_pool_helpers.hpp>
 
 #include <memory>
 
@@ -158,7 +159,11 @@ namespace {
         ctx.params.set("rt.mpi_completion_mode", mode);
         ctx.params.set("rt.mpi_enable_pool", pool);
         if (pool && ctx.params.get("rt.workers") < 2) ctx.params.set("rt.workers", 2);
+        // pika creates the dedicated polling pool only if it sees more than one rank
+        sim_mpi_set_world_size(pool ? 2 : 1);
         pk::start(ctx);
+        bool const pool_created = pika::resource::get_num_thread_pools() > 1;
+        VH_CHECK(pool_created == (pool != 0), "C20.harness", "polling pool requested %d, created %d", (int) pool, (int) pool_created);
         // requests tested per MPI call: 1 = MPI_Testany, > 1 = MPI_Testsome in chunks
         int64_t polling_size = ctx.params.set("c20.polling_size", r.chance(1, 4) ? 1 : r.chance(1, 2) ? 8 : r.range(2, 64));
         mpi::detail::set_max_polling_size((std::size_t) polling_size);
@@ -234,7 +239,7 @@ namespace {
                 "message %d: send signalled %d times, receive %d times", i, m.send_signals, m.recv_signals);
         }
         probe(sfmt("mode%lld", (long long) mode).c_str());
-        probe(pool ? "mpi_pool" : "no_mpi_pool");
+        probe(pool_created ? "mpi_pool" : "no_mpi_pool");
         probe("requests", st.posted);
         focus_report();
         pk::stop();
